@@ -18,7 +18,7 @@ import (
 
 func genHSStall(t *rapid.T) HSPath {
 	var c HSPath
-	c.Path = rapid.SampledFrom([]string{"direct-ws", "direct-wss", "http-proxy", "https-proxy", "socks5"}).Draw(t, "path")
+	c.Path = rapid.SampledFrom([]string{"direct-ws", "direct-wss", "direct-wss-tlshook", "direct-ws-netdial", "http-proxy", "https-proxy", "https-proxy-tlshook", "socks5"}).Draw(t, "path")
 	c.Secure = rapid.Bool().Draw(t, "secure")
 	switch rapid.IntRange(0, 2).Draw(t, "limitkind") {
 	case 0:
@@ -33,7 +33,7 @@ func genHSStall(t *rapid.T) HSPath {
 	switch c.Path {
 	case "direct-wss":
 		stages = append(stages, "backend-tls")
-	case "http-proxy", "https-proxy":
+	case "http-proxy", "https-proxy", "https-proxy-tlshook":
 		stages = append(stages, "proxy-reply")
 		if c.Secure {
 			stages = append(stages, "backend-tls")
